@@ -11,9 +11,10 @@ Correspondence (model ≈ code), all on a virtual clock (harness/c06_util.py):
      ContinueException / IncompleteException / BadRequest rendered by their own to_message).
   K  the real `_extract_block_key` equality vs Lean `blockKey` over every option number class.
 Oracle (independent reading of the property / RFC 7959, shares no code with aiocoap or the
-model): bodies the handler saw vs what was sent; 2.31 echo; 4.08 / 4.00 cases; no 5.xx; Block2
-responses are exact slices of the latest rendering with the right more flag; state lifetime
-between MAX_TRANSMIT_WAIT (93 s, RFC 7252) and twice that.
+model): bodies the handler saw vs what was sent, each completed body once; 2.31 echo; 4.08 / 4.00
+cases (final blocks included); no 5.xx of the machinery's own; Block2 responses are exact slices of
+the rendering made for the latest block-0 request (none if its handler raised) with the right more
+flag; state lifetime between MAX_TRANSMIT_WAIT (93 s, RFC 7252) and twice that.
 """
 import c06_util as U
 from common import compare, load_corpus, HarnessError
@@ -21,27 +22,48 @@ from common import compare, load_corpus, HarnessError
 RULE = ("R: scripts of 4-40 requests by 1-4 logical clients on 1-3 endpoints (distinct port / local "
         "address / identical), 1-2 resources, queries and methods; each step is drawn state-aware: "
         "in-order next block, or a deviation (restart at 0, repeat, skip, last block first, payload "
-        "length +-1 of the block size, size change, beyond-end / later Block2 block without rendering), "
+        "length +-1 of the block size with and without the more flag, final block of size+1 / size+16 / "
+        "2*size bytes, blocks n+1 / repeated final block after the transfer was completed, size change, "
+        "beyond-end / later Block2 block without rendering); about 7 % of the handler behaviours raise "
+        "(NotFound, MethodNotAllowed, BadRequest, Forbidden, ServiceUnavailable, RuntimeError, ValueError, "
+        "KeyError) instead of returning a message, "
         "with idle times 0..3T biased to T-1,T,T+1,2T-1,2T,2T+1 (T = MAX_TRANSMIT_WAIT); body and "
         "rendering lengths are biased to k*size-1,k*size,k*size+1 and maximum_payload_size-1..+1. "
-        "Boundary tables enumerate every szx 0..7 x those lengths and every idle time x timer phase. "
+        "Boundary tables enumerate every szx 0..7 x those lengths (final blocks of size-1, size, size+1, "
+        "2*size and 0 bytes; blocks n+1, n+2 and the repeated final block after completion), every idle "
+        "time x timer phase, and every exception class raised on a block-0 request (Block2 0, no Block2, "
+        "final Block1 block, resource without assembly) while an older rendering is kept, followed by "
+        "later blocks. "
         "A script is non-trivial when a handler saw a multi-block body or a later Block2 block was "
         "served, and at least one request was refused. T: timed op sequences on 1-4 keys with "
         "T in {1,2,7,10} ticks. K: pairs of requests differing in one component of the block key.")
 TRUSTED = ["harness/c06_util.py: socket-less virtual-clock asyncio loop (timers run at exactly their deadline)",
            "the model is given the request as parsed by aiocoap's own Message.decode (options, payload)"]
 ASSUMPTIONS = ["one request is rendered atomically (the handler does not yield to another request of the same resource)",
-               "the handler is a total function returning a response message (no exception, no request code)",
+               "the handler returns a response message (no request code) or raises; an exception is answered as "
+               "pipe.error_to_message renders it (its code is compared, the rendering itself is C09's subject)",
                "diagnostic payload text of error responses is not compared",
-               "BERT (size exponent 7) is only exercised with maximum_payload_size >= 1024",
-               "a final Block1 block (M=0) longer than its block size is accepted by the code; the property does not judge it",
-               "after a final block the assembly stays in the spool; a later block that continues it exactly is "
-               "accepted (the body is still the in-order concatenation of received blocks)"]
+               "BERT (size exponent 7) is only exercised with maximum_payload_size >= 1024; the length of a final "
+               "BERT block is not constrained",
+               "block 0 is not a continuation: its payload length is not judged against its block size"]
 
 T_RFC = 93 * 1024          # MAX_TRANSMIT_WAIT of RFC 7252 in ticks, for the oracle only
 
 GET, POST, PUT, FETCH, IPATCH = 1, 2, 3, 5, 7
-H_CODES = [69, 69, 69, 68, 65, 132]
+H_CODES = [69, 69, 69, 68, 65, 132, 163]
+# exceptions a scripted handler raises -> the code they are answered with (RFC 7252 12.1.2 for the
+# error classes named after response codes; anything that is not a CoAP error is 5.00)
+EXC_CODES = {"NotFound": 132, "MethodNotAllowed": 133, "BadRequest": 128, "Forbidden": 131,
+             "ServiceUnavailable": 163, "RuntimeError": 160, "ValueError": 160, "KeyError": 160}
+EXC_NAMES = sorted(EXC_CODES)
+
+
+def h_raise(name):
+    return [EXC_CODES[name], [], "-", name]
+
+
+def h_exc(h):
+    return h[3] if len(h) > 3 and h[3] else None
 H_OPTS = [[], [], [[12, "2a"]], [[4, "6162"]], [[12, "-"], [14, "3c"]]]
 
 
@@ -113,7 +135,10 @@ def run_script(aiocoap, script, direct=False):
                 payload = mk_bytes(st["payload"])
                 msg = w.incoming(epd, st["code"], hexopts(st["opts"]), st["b1"], st["b2"], payload, i + 1)
                 rid = keyids.setdefault(msg.remote.blockwise_key, len(keyids))
-                hcode, hopts, hspec = st["h"]
+                hcode, hopts, hspec = st["h"][:3]
+                hexc = h_exc(st["h"])
+                if hexc and (hexc not in EXC_CODES or EXC_CODES[hexc] != hcode):
+                    raise HarnessError(f"script raises {hexc!r} with code {hcode}")
                 hpayload = mk_bytes(hspec)
                 ppay = bytes(msg.payload)
                 pspec = spec_str(st["payload"]) if ppay == payload else U.hexs(ppay)
@@ -122,9 +147,10 @@ def run_script(aiocoap, script, direct=False):
                     str(msg.remote.maximum_payload_size), str(msg.remote.maximum_block_size_exp),
                     str(int(msg.code)), U.blk_raw(msg, 27), U.blk_raw(msg, 23),
                     U.opts_str(U.opts_of(msg)), pspec,
-                    str(hcode), U.opts_str(hexopts(hopts)), spec_str(hspec)]))
+                    ("!" if hexc else "") + str(hcode), U.opts_str(hexopts(hopts)), spec_str(hspec)]))
                 call = w.request_direct if direct else w.request
-                resp, exc, seen = await call(st["res"], bool(st["asm"]), msg, (hcode, hexopts(hopts), hpayload))
+                resp, exc, seen = await call(st["res"], bool(st["asm"]), msg,
+                                             (hcode, hexopts(hopts), hpayload, hexc))
                 rp = bytes(resp.payload)
                 if len(seen) == 0:
                     s = "-"
@@ -222,16 +248,21 @@ class Reference:
         opts = hexopts(st["opts"])
         key = (st["res"], ident, st["code"], cache_key_opts(opts))
         payload = mk_bytes(st["payload"])
-        hcode, hopts, hspec = st["h"]
+        hcode, hopts, hspec = st["h"][:3]
+        hexc = h_exc(st["h"])
         R = (hcode, hexopts(hopts), mk_bytes(hspec))
         seen = o["seen"]
-        if o["code"] >= 160:
+        if o["code"] >= 160 and o["exc"] and not (seen and hexc):
+            # an error the machinery produced (a 5.xx message the handler returned is judged below
+            # as its rendering; an exception the handler raised as its outcome)
             return f"5.xx response {o['code']} ({o['exc']})"
         if len(seen) > 1:
             return f"handler invoked {len(seen)} times for one request"
         if not st["asm"]:
             if len(seen) != 1 or seen[0][1] != payload:
                 return "resource without block-wise assembly did not get the request as it came"
+            if hexc and not (o["exc"] and o["code"] == EXC_CODES[hexc]):
+                return f"handler raised {hexc}, answered {o['code']}"
             return ""
         b1 = st["b1"]
         cand_b2 = [st["b2"]]
@@ -244,7 +275,10 @@ class Reference:
             al = self.alive(now, a["last"]) if a else "no"
             if a and not a["certain"] and al == "yes":
                 al = "maybe"
-            size_bad = bool(more) and not (len(payload) == size or (szx == 7 and len(payload) % 1024 == 0))
+            if more:       # RFC 7959 2.2: with M set the payload is exactly 2**(SZX+4) bytes (BERT: a multiple of 1024)
+                size_bad = not (len(payload) == size or (szx == 7 and len(payload) % 1024 == 0))
+            else:          # the last block may be shorter, not longer (BERT: no bound)
+                size_bad = szx != 7 and len(payload) > size
             exp = set()
             if num == 0:
                 exp.add("accept")
@@ -261,8 +295,6 @@ class Reference:
                         exp.add(408)
                     else:
                         exp.add("accept")
-                        if a["done"]:
-                            exp.add(408)      # a finished transfer may have been forgotten
             if o["code"] == 136 and o["exc"]:
                 got = 408
             elif o["code"] == 128 and o["exc"] and not seen:
@@ -293,13 +325,12 @@ class Reference:
                 return ""
             if num == 0:
                 a = {"blocks": [payload], "length": len(payload), "last": now, "first_b2": st["b2"],
-                     "done": not more, "certain": True}
+                     "certain": True}
                 self.asm[key] = a
             else:
                 a["blocks"].append(payload)
                 a["length"] += len(payload)
                 a["last"] = now
-                a["done"] = not more
                 a["certain"] = True
             if more:
                 if o["code"] != 95:
@@ -314,17 +345,19 @@ class Reference:
             body = b"".join(a["blocks"])
             if st["b2"] is None and len(a["blocks"]) > 1 and a["first_b2"] is not None:
                 cand_b2.append(a["first_b2"])
+            # the transfer is complete: it ends here, a later block belongs to no transfer
+            del self.asm[key]
         # ---- the (assembled) request reaches the handler / the rendering cache
         verdicts = []
         for gb2 in cand_b2:
-            v = self.stage2(now, key, gb2, R, o, seen, body, st, mps, commit=False)
+            v = self.stage2(now, key, gb2, R, o, seen, body, st, mps, hexc, commit=False)
             verdicts.append(v)
             if v == "":
-                self.stage2(now, key, gb2, R, o, seen, body, st, mps, commit=True)
+                self.stage2(now, key, gb2, R, o, seen, body, st, mps, hexc, commit=True)
                 return ""
         return verdicts[0]
 
-    def stage2(self, now, key, gb2, R, o, seen, body, st, mps, commit):
+    def stage2(self, now, key, gb2, R, o, seen, body, st, mps, hexc, commit):
         fresh = gb2 is None or gb2[0] == 0
         if fresh:
             if len(seen) != 1:
@@ -334,6 +367,15 @@ class Reference:
                         f"concatenation ({len(body)} bytes) of the blocks received under this key")
             if seen[0][0] != st["code"]:
                 return "handler saw another request code"
+            if hexc:
+                # the latest block-0 request has no rendering: nothing may be served for later blocks
+                if not (o["exc"] and o["code"] == EXC_CODES[hexc]):
+                    return f"handler raised {hexc}, answered {o['code']}"
+                if o["b2"] is not None:
+                    return f"error response to a raising handler carries Block2 {o['b2']}"
+                if commit:
+                    self.rend.pop(key, None)
+                return ""
             v = check_block2(gb2, R, o, mps)
             if v:
                 return v
@@ -481,6 +523,8 @@ def gen_script(rng, T, big=False):
         dsize = U_size(c.dszx)
         hlen = len_around(rng, dsize, c.mps)
         h = [rng.choice(H_CODES), rng.choice(H_OPTS), pat(hlen, rng.randrange(256), rng.choice([1, 3, 7]))]
+        if rng.random() < 0.07:
+            h = h_raise(rng.choice(EXC_NAMES))
         opts = [list(o) for o in c.opts]
         if rng.random() < 0.2:
             opts.append([60, "%02x" % rng.randrange(1, 255)])     # Size1: NoCacheKey
@@ -524,11 +568,11 @@ def gen_script(rng, T, big=False):
             c.up = [pat(L, rng.randrange(256), rng.choice([1, 5, 11])), 0]
             kind = "u_start"
         elif k < 13:
-            kind = "u_next"
+            kind = "u_next" if c.up[1] < max(c.up[0][1], 1) else "u_after_done"
         elif k < 14:
             kind = "u_skip"
         elif k < 15:
-            kind = "u_repeat"
+            kind = "u_repeat"        # after the final block: the final block once more
         elif k < 16:
             kind = "u_last_first"
         elif k < 18:
@@ -554,6 +598,11 @@ def gen_script(rng, T, big=False):
         num = off // size
         more = off + size < L
         pl = slice_spec(spec, off, off + size)
+        if kind == "u_after_done":
+            # block n+1 (sometimes n+2) of a transfer whose final block was already sent
+            num += rng.choice([0, 0, 1])
+            pl = pat(rng.choice([0, 1, size, size]), 7)
+            more = rng.random() < 0.3 and pl[1] == size
         if kind == "u_wrong_size":
             w = rng.randrange(4)
             if w == 0:
@@ -565,7 +614,7 @@ def gen_script(rng, T, big=False):
             elif w == 2:
                 more = True                                         # more flag on the (short) last block
             else:
-                pl = pat(size + rng.choice([1, 16]), 3)             # oversize final block
+                pl = pat(size + rng.choice([1, 1, 16, size]), 3)    # oversize final block
                 more = False
         b2 = None
         if not more and rng.random() < 0.4:
@@ -618,14 +667,42 @@ def boundary_scripts(T):
                 off += size
                 if not more:
                     break
-            # a block that continues a finished transfer, a repeated final block, a restart
-            steps.append(st(PUT, 1, [off // size, 0, szx], None, pat(2, 2), [68, [], pat(3, 1)]))
+            nfin = off // size - 1
+            # blocks that continue a finished transfer: n+1 (final and with more flag), n+2, and the
+            # final block once more
+            steps.append(st(PUT, 1, [nfin + 1, 0, szx], None, pat(2, 2), [68, [], pat(3, 1)]))
+            steps.append(st(PUT, 1, [nfin + 1, 1, szx], None, pat(size, 2), [68, [], pat(3, 1)]))
+            steps.append(st(PUT, 1, [nfin + 2, 0, szx], None, pat(1, 2), [68, [], pat(3, 1)]))
+            if nfin > 0:
+                steps.append(st(PUT, 1, [nfin, 0, szx], None, slice_spec(body, nfin * size, L), [68, [], "-"]))
+            # a restart; a gap; wrong lengths with the more flag; final blocks of size+1, 2*size
+            # (refused below BERT), size-1 (completes the body), then block 2 after completion
             steps.append(st(PUT, 1, [0, 1, szx], None, pat(size, 3), [68, [], "-"]))
             steps.append(st(PUT, 1, [2, 0, szx], None, pat(1, 3), [68, [], "-"]))
             steps.append(st(PUT, 1, [1, 1, szx], None, pat(size - 1, 3), [68, [], "-"]))
             steps.append(st(PUT, 1, [1, 1, szx], None, pat(size + 1, 3), [68, [], "-"]))
             steps.append(st(PUT, 1, [1, 0, szx], None, pat(size + 1, 4), [68, [], "-"]))
+            steps.append(st(PUT, 1, [1, 0, szx], None, pat(2 * size, 4), [68, [], "-"]))
+            steps.append(st(PUT, 1, [1, 0, szx], None, pat(size - 1, 5), [68, [], "-"]))
+            steps.append(st(PUT, 1, [2, 0, szx], None, pat(1, 5), [68, [], "-"]))
+            # final blocks of exactly the block size and of no bytes at all
+            for fl in (size, 0):
+                steps.append(st(PUT, 1, [0, 1, szx], None, pat(size, 6), [68, [], "-"]))
+                steps.append(st(PUT, 1, [1, 0, szx], None, pat(fl, 7), [68, [], "-"]))
+                steps.append(st(PUT, 1, [1, 0, szx], None, pat(fl, 7), [68, [], "-"]))
             out.append({"kind": "R", "eps": ep, "steps": steps})
+    # BERT (szx 7): blocks with the more flag are multiples of 1024 bytes, block numbers count 1024-byte
+    # units, a final block has any length
+    for n0 in (1, 2, 3):
+        steps = [st(PUT, 0, [0, 1, 7], None, pat(1024 * n0, 1), [68, [], "-"]),
+                 st(PUT, 1, [n0, 1, 7], None, pat(2048, 2), [68, [], "-"]),
+                 st(PUT, 1, [n0 + 2, 1, 7], None, pat(1000, 3), [68, [], "-"]),
+                 st(PUT, 1, [n0 + 2, 1, 7], None, pat(1025, 3), [68, [], "-"]),
+                 st(PUT, 1, [n0 + 1, 0, 7], None, pat(5, 3), [68, [], "-"]),
+                 st(PUT, 1, [n0 + 2, 0, 7], None, pat(2500, 4), [68, [], pat(3, 1)]),
+                 st(PUT, 1, [n0 + 5, 0, 7], None, pat(5, 5), [68, [], "-"]),
+                 st(PUT, 1, [n0 + 2, 0, 7], None, pat(2500, 4), [68, [], "-"])]
+        out.append({"kind": "R", "eps": ep, "steps": steps})
     # lifetime: phase of the timer (armed by another key `ph` ticks earlier) x idle time
     eps2 = [[list(ADDRS[0]), None, 1124, 6], [list(ADDRS[1]), None, 1124, 6]]
     idles = [T - 1, T, T + 1, 2 * T - 1, 2 * T, 2 * T + 1]
@@ -652,6 +729,27 @@ def boundary_scripts(T):
                     steps.append(st(GET, d2, None, [7, 0, 0], "-", [69, [], "-"]))
                 steps.append(st(GET, d, None, [2, 0, 0], "-", [69, [], "-"]))
                 out.append({"kind": "R", "eps": eps2, "steps": steps})
+    # a handler that raises on a block-0 request while an older rendering is kept, then later blocks
+    okh = [69, [[12, "2a"]], pat(40, 1, 3)]
+    for name in EXC_NAMES:
+        hr = h_raise(name)
+        for first in ([0, 0, 0], None):
+            e = ep if first is not None else [[list(ADDRS[0]), None, 32, 0]]   # no Block2: mps forces blocks
+            # GET: kept, block 1 served, raise, blocks 1 and 2 refused, fresh rendering, block 1 again
+            steps = [st(GET, 0, None, first, "-", okh), st(GET, 1, None, [1, 0, 0], "-", okh),
+                     st(GET, 1, None, first, "-", hr), st(GET, 1, None, [1, 0, 0], "-", okh),
+                     st(GET, 1, None, [2, 0, 0], "-", okh),
+                     st(GET, 1, None, first, "-", [69, [], pat(40, 9, 5)]), st(GET, 1, None, [1, 0, 0], "-", okh)]
+            out.append({"kind": "R", "eps": e, "steps": steps})
+        # the block-0 request is the final block of an upload; the raise comes when the transfer completes
+        steps = [st(PUT, 0, [0, 0, 0], [0, 0, 0], pat(5, 1), okh), st(PUT, 1, None, [1, 0, 0], "-", okh),
+                 st(PUT, 1, [0, 1, 0], None, pat(16, 1), hr), st(PUT, 1, [1, 0, 0], [0, 0, 0], pat(3, 2), hr),
+                 st(PUT, 1, None, [1, 0, 0], "-", okh), st(PUT, 1, [2, 0, 0], None, pat(3, 2), okh)]
+        out.append({"kind": "R", "eps": ep, "steps": steps})
+        # a resource that does its own block handling
+        s0 = st(GET, 0, None, [0, 0, 0], "-", hr)
+        s0["asm"] = 0
+        out.append({"kind": "R", "eps": ep, "steps": [s0, st(GET, 1, None, [1, 0, 0], "-", okh)]})
     # maximum_payload_size / maximum_block_size_exp edges, request without Block2
     for mps in (1124, 1024, 64, 2048):
         for mszx in (0, 5, 6, 7):
@@ -894,9 +992,14 @@ def run(env, rep):
             scripts.append((c, ["corpus"] * len(c["steps"])))
     for s in boundary_scripts(T):
         scripts.append((s, ["boundary"] * len(s["steps"])))
-    rep.exhaustive_parts.append("szx 0..7 x body lengths k*size-1..k*size+1 for Block1 and Block2; idle times "
+    rep.exhaustive_parts.append("szx 0..7 x body lengths k*size-1..k*size+1 for Block1 and Block2; per szx final "
+                                "blocks of 0, size-1, size, size+1, 2*size bytes and blocks n+1 / n+1 with more / "
+                                "n+2 / repeated final block after completion; BERT Block1 sequences (multiples of 1024 with the more flag, "
+                                "1000 / 1025 bytes refused, final block of 2500 bytes); idle times "
                                 "T-1..T+1, 2T-1..2T+1 x timer phase x keep-alive; maximum_payload_size edges; "
-                                "each component of the block key changed alone")
+                                "each component of the block key changed alone; each of 8 exception classes raised "
+                                "on a block-0 request (Block2 0 / none / final Block1 block / no assembly) with an "
+                                "older rendering kept, then later blocks")
     n = env.scale(1200, 20000)
     for j in range(n):
         scripts.append(gen_script(env.rng, T, big=(j % 7 == 0)))
@@ -913,13 +1016,18 @@ def run(env, rep):
         for k, o, st in zip(kinds, obs, script["steps"]):
             rep.count("R:step=" + k)
             total += 1
-            if k.split("_")[-1] in ("skip", "repeat", "first", "size", "beyond", "resize"):
+            if k.split("_")[-1] in ("skip", "repeat", "first", "size", "beyond", "resize", "done"):
                 deviations += 1
             cls = {95: "2.31", 136: "4.08", 128: "4.00"}.get(o["code"], "%d.xx" % (o["code"] >> 5)) \
                 if (o["exc"] or o["code"] == 95) else "rendered"
             rep.count("R:response=" + cls)
             if o["seen"]:
                 rep.count("R:handler=" + ("assembled" if st["b1"] is not None and st["b1"][0] > 0 else "single"))
+                if h_exc(st["h"]):
+                    rep.count("R:handler-raised=" + h_exc(st["h"]))
+            if st["b1"] is not None and not st["b1"][1] and st["b1"][0] > 0 and st["b1"][2] < 7 \
+                    and mk_bytes(st["payload"]).__len__() > (1 << (st["b1"][2] + 4)):
+                rep.count("R:final-block-oversize")
             if o["b2"] is not None:
                 rep.count("R:block2=" + ("first" if o["b2"][0] == 0 else "later") + ("+more" if o["b2"][1] else ""))
             if st["dt"] >= T - 1:
